@@ -257,9 +257,6 @@ theorem Stmts.eq_nil_of_isNil {ss : Stmts} (h : ss.isNil = true) : ss = .nil := 
   | nil => rfl
   | cons _ _ => simp [Stmts.isNil] at h
 
-theorem Sound.of_fin_true {σ ν : Type} {u : Usage} {o : Out σ ν} {r : Option (TV ν × σ)}
-    (h : Sound (if true = true then u else .local) o r) : Sound u o r := by simpa using h
-
 mutual
 /-- Soundness of `stmts` for any `ewr` that is semantically an "always leaves" test. -/
 theorem sound_stmts {σ ν : Type} (I : Interp σ ν) (ewr : Stmts → Bool)
